@@ -11,7 +11,7 @@ case "$FILTER" in
 esac
 W=/tmp/seedrepo
 [ -d $W ] || git -C /repo worktree add -q $W HEAD
-cd $W && git checkout -q -- . && git clean -fdq -e target
+cd $W && git checkout -q -- . && git clean -fdq -e target && git checkout -q --detach $(git -C /repo rev-parse HEAD)
 export CARGO_NET_OFFLINE=true
 res() { echo "[$NAME] $1"; }
 git apply "$DIR/demo.diff" || { res "demo.diff does not apply"; exit 1; }
